@@ -1,5 +1,6 @@
 import VelaVerif.Spec.Requant
 import VelaVerif.Spec.SoftmaxKernel
+import VelaVerif.Spec.StridedSliceRef
 /-!
 # Integer reference semantics of quantised TensorFlow Lite operators (specification side)
 
@@ -211,7 +212,12 @@ def conv2d (x w : Tensor) (bias : Option Tensor) (p : ConvP) : Except String Ten
   let [n, H, W, C] := x.shape | throw "conv: input rank"
   let [O, kh, kw, wc] := w.shape | throw "conv: filter rank"
   if n ≠ 1 then throw "unsupported:batch"
-  if wc ≠ C then throw "conv: filter depth"
+  -- grouped convolution (reference_integer_ops::ConvPerChannel / reference_ops::Conv): groups = input depth / filter depth,
+  -- output channel `oc` belongs to group `oc / (O / groups)` and reads the input channels `group * wc ..< (group + 1) * wc`
+  if wc = 0 ∨ C % wc ≠ 0 then throw "conv: filter depth"
+  let groups := C / wc
+  if groups = 0 ∨ O % groups ≠ 0 then throw "conv: filter depth"
+  let fpg := O / groups
   if p.mult.size ≠ O ∨ p.shift.size ≠ O then throw "conv: multiplier count"
   let ekh := (kh - 1) * p.dh + 1
   let ekw := (kw - 1) * p.dw + 1
@@ -220,13 +226,14 @@ def conv2d (x w : Tensor) (bias : Option Tensor) (p : ConvP) : Except String Ten
   if oh = 0 ∨ ow = 0 then throw "conv: empty output"
   let pt := padBefore p.same H p.sh ekh oh
   let pl := padBefore p.same W p.sw ekw ow
-  let ifm := fun y xx c => at3 x W C y xx c
   let mut out : Array Int := Array.mkEmpty (oh * ow * O)
   for oy in [0:oh] do
     for ox in [0:ow] do
       for oc in [0:O] do
-        let wgt := fun ky kx ic => w.data.getD (((oc * kh + ky) * kw + kx) * C + ic) 0 + p.wOff
-        let acc := convAcc H W C ifm kh kw wgt p.sh p.sw p.dh p.dw pt pl p.inOff oy ox
+        let g0 := (oc / fpg) * wc
+        let ifm := fun y xx c => at3 x W C y xx (g0 + c)
+        let wgt := fun ky kx ic => w.data.getD (((oc * kh + ky) * kw + kx) * wc + ic) 0 + p.wOff
+        let acc := convAcc H W wc ifm kh kw wgt p.sh p.sw p.dh p.dw pt pl p.inOff oy ox
         let acc := acc + (match bias with | some b => b.data.getD oc 0 | none => 0)
         let v := requant p.acc64 acc (p.mult.getD oc 0) (p.shift.getD oc 0) + p.outOff
         out := out.push (clamp v p.actMin p.actMax)
@@ -803,8 +810,19 @@ def evalOp (g : Graph) (env : Env) (op : OpDef) : Except String (List Tensor) :=
     (List.range num).mapM fun k =>
       slice a ((List.replicate a.shape.length 0).set axis (k * part)) (a.shape.set axis part)
   | "STRIDED_SLICE" =>
-    -- params: group 0 = begin, group 1 = end (already resolved), group 2 = strides (absent = 1)
+    -- params: group 0 = begin, group 1 = end, group 2 = strides, group 3 = [begin_mask, end_mask, ellipsis_mask,
+    -- new_axis_mask, shrink_axis_mask, offset]: the raw slice specification of the file, resolved here by the transcription
+    -- of the TFLite reference (Spec/StridedSliceRef.lean). Without group 3: begin / end already resolved (strides absent = 1).
     let a ← getIn env op 0
+    if !(grp op 3).isEmpty then
+      let spec : StridedSliceRef.Spec :=
+        { begin := grp op 0, end_ := grp op 1, strides := grp op 2, beginMask := pN op 3 0, endMask := pN op 3 1,
+          ellipsisMask := pN op 3 2, newAxisMask := pN op 3 3, shrinkAxisMask := pN op 3 4, offset := pI op 3 5 ≠ 0 }
+      let (shp, dat) ← StridedSliceRef.eval spec a.shape a.data
+      let os := g.shape (outId op 0)
+      if shp ≠ os then throw s!"strided_slice: the specification yields shape {shp}, the result tensor has {os}"
+      if dat.size = 0 then throw "unsupported:STRIDED_SLICE:empty"
+      return [{ shape := os, data := dat }]
     let b := (grp op 0).map Int.toNat
     let e := (grp op 1).map Int.toNat
     let st := if (grp op 2).isEmpty then b.map (fun _ => 1) else (grp op 2).map Int.toNat
